@@ -592,14 +592,15 @@ Section Decode.
     - assert (E : exists p, pairs_of (map lid ks) = Some p).
       { destruct (pairs_of (map lid ks)) as [p|]; [eauto | destruct ks; discriminate]. }
       destruct E as [p Ep].
-      destruct (pairs_of_some_len _ (map lid ks') _ ltac:(rewrite !map_length; exact Hlen) Ep) as [p' Ep'].
+      assert (Hl2 : List.length (map lid ks) = List.length (map lid ks')) by (rewrite !map_length; exact Hlen).
+      destruct (pairs_of_some_len (map lid ks) (map lid ks') p Hl2 Ep) as [p' Ep'].
       exists (LCond j p'). destruct ks'; cbn [map] in *; rewrite Ep'; reflexivity.
     - destruct ks as [|key entries]; [discriminate|]. inv HF.
       destruct (Nat.eqb (List.length keys) (List.length entries)) eqn:El; [|discriminate].
       apply Forall2_length in H3. rewrite H3 in El. rewrite El. eauto.
     - assert (E : exists ps ts, pairs_of ks = Some ps /\ lin_terms t ps = Some ts).
-      { destruct (pairs_of ks) as [ps|]; [|destruct ks; discriminate].
-        destruct (lin_terms t ps) as [ts|]; [eauto | destruct ks; discriminate]. }
+      { destruct (pairs_of ks) as [ps|] eqn:Ep; [|destruct ks; discriminate].
+        destruct (lin_terms t ps) as [ts|] eqn:Et; [exists ps, ts; split; [reflexivity | exact Et] | destruct ks; discriminate]. }
       destruct E as (ps & ts & Ep & Et).
       destruct (pairs_of_some_len _ ks' _ Hlen Ep) as [ps' Ep'].
       pose proof (pairs_of_inv _ _ Ep) as E1. pose proof (pairs_of_inv _ _ Ep') as E2.
@@ -670,8 +671,8 @@ Section Decode.
     intros He W1 C1 W2 C2. rewrite !engine_tree_resolve by assumption.
     pose proof (signature_defined_erase l1 l2 He) as Hd. rewrite He.
     destruct (signature t l1), (signature t l2); try reflexivity.
-    - destruct (proj2 Hd eq_refl); discriminate.
-    - symmetry in Hd. destruct (proj1 Hd eq_refl); discriminate.
+    - discriminate (proj2 Hd eq_refl).
+    - discriminate (proj1 Hd eq_refl).
   Qed.
 End Decode.
 
